@@ -10,6 +10,8 @@ use mls_rs::group::CommitSecrets;
 use mls_rs::{Client, Group, MlsMessage};
 use std::collections::BTreeMap;
 
+const C11_PSK: &[u8] = b"c11-psk";
+
 #[derive(Clone)]
 struct CommitRec {
     author: usize,
@@ -17,6 +19,7 @@ struct CommitRec {
     secrets: Option<Vec<u8>>,
     /// the same commit re-signed by its author with a wrong confirmation tag (must be rejected by everybody)
     bad: Option<MlsMessage>,
+    kind: Kind,
 }
 
 #[derive(Clone)]
@@ -25,9 +28,30 @@ struct Node<C: MlsConfig> {
     commits: Vec<CommitRec>,
 }
 
+/// what a built commit carries: nothing (it has an update path), only an external PSK (no path), the removal of member j
+/// (path), or a re-init (no path)
+#[derive(Clone, Copy, Debug, PartialEq)]
+enum Kind {
+    Empty,
+    NoPath,
+    Remove(usize),
+    Reinit,
+}
+
+impl Kind {
+    fn s(&self) -> String {
+        match self {
+            Kind::Empty => String::new(),
+            Kind::NoPath => ":n".into(),
+            Kind::Remove(j) => format!(":r{j}"),
+            Kind::Reinit => ":i".into(),
+        }
+    }
+}
+
 #[derive(Clone, Copy, Debug)]
 enum Op {
-    Build(usize, bool),
+    Build(usize, bool, Kind),
     Clear(usize),
     Apply(usize),
     ApplyDet(usize, usize),
@@ -39,8 +63,8 @@ enum Op {
 impl Op {
     fn s(&self) -> String {
         match self {
-            Op::Build(m, false) => format!("b{m}"),
-            Op::Build(m, true) => format!("B{m}"),
+            Op::Build(m, false, k) => format!("b{m}{}", k.s()),
+            Op::Build(m, true, k) => format!("B{m}{}", k.s()),
             Op::Clear(m) => format!("c{m}"),
             Op::Apply(m) => format!("a{m}"),
             Op::ApplyDet(m, k) => format!("D{m}:{k}"),
@@ -58,6 +82,7 @@ struct Ctx {
     base_epoch: u64,
     active: usize,
     results: BTreeMap<String, u64>,
+    kinds: Vec<Kind>,
 }
 
 fn obs<C: MlsConfig>(n: &Node<C>, classes: &mut Vec<Vec<u8>>, base: u64) -> String {
@@ -81,15 +106,40 @@ fn obs<C: MlsConfig>(n: &Node<C>, classes: &mut Vec<Vec<u8>>, base: u64) -> Stri
 fn apply_op<C: MlsConfig>(n: &mut Node<C>, op: Op) -> Result<(), String> {
     let r = std::panic::catch_unwind(std::panic::AssertUnwindSafe(|| -> Result<(), mls_rs::error::MlsError> {
         match op {
-            Op::Build(m, false) => {
-                // through the builder (the entry point of every commit flavour); `Group::commit` is the same call
-                let out = if n.commits.len() % 2 == 0 { n.groups[m].commit_builder().build()? } else { n.groups[m].commit(vec![])? };
-                let bad = n.groups[m].verif_resign_commit(&out.commit_message, &mls_rs::verif::insider::InsiderEdit::SetConfirmationTag(vec![9u8; 32])).ok();
-                n.commits.push(CommitRec { author: m, msg: out.commit_message, secrets: None, bad });
-            }
-            Op::Build(m, true) => {
-                let (out, sec) = if n.commits.len() % 2 == 0 { n.groups[m].commit_builder().build_detached()? } else { n.groups[m].commit_detached(vec![])? };
-                n.commits.push(CommitRec { author: m, msg: out.commit_message, secrets: Some(sec.to_bytes()?), bad: None });
+            Op::Build(m, detached, kind) => {
+                let leaf_of = |n: &Node<C>, j: usize| n.groups[j].current_member_index();
+                let tl = match kind {
+                    Kind::Remove(j) => Some(leaf_of(n, j)),
+                    _ => None,
+                };
+                let alt = n.commits.len() % 2 == 1 && kind == Kind::Empty;
+                let g = &mut n.groups[m];
+                // through the builder (the entry point of every commit flavour); for the empty commit `Group::commit` every other time
+                let mut b = g.commit_builder();
+                match kind {
+                    Kind::Empty => {}
+                    Kind::NoPath => b = b.add_external_psk(ext_psk_id(C11_PSK))?,
+                    Kind::Remove(_) => b = b.remove_member(tl.unwrap())?,
+                    Kind::Reinit => b = b.reinit(None, mls_rs::ProtocolVersion::MLS_10, mls_rs::CipherSuite::from(1u16), Default::default())?,
+                }
+                if detached {
+                    let (out, sec) = if alt {
+                        drop(b);
+                        g.commit_detached(vec![])?
+                    } else {
+                        b.build_detached()?
+                    };
+                    n.commits.push(CommitRec { author: m, msg: out.commit_message, secrets: Some(sec.to_bytes()?), bad: None, kind });
+                } else {
+                    let out = if alt {
+                        drop(b);
+                        g.commit(vec![])?
+                    } else {
+                        b.build()?
+                    };
+                    let bad = n.groups[m].verif_resign_commit(&out.commit_message, &mls_rs::verif::insider::InsiderEdit::SetConfirmationTag(vec![9u8; 32])).ok();
+                    n.commits.push(CommitRec { author: m, msg: out.commit_message, secrets: None, bad, kind });
+                }
             }
             Op::Clear(m) => n.groups[m].clear_pending_commit(),
             Op::Apply(m) => {
@@ -116,12 +166,26 @@ fn apply_op<C: MlsConfig>(n: &mut Node<C>, op: Op) -> Result<(), String> {
     }
 }
 
-fn enabled<C: MlsConfig>(n: &Node<C>, active: usize) -> Vec<Op> {
+fn enabled<C: MlsConfig>(n: &Node<C>, active: usize, kinds: &[Kind]) -> Vec<Op> {
     let mut v = vec![];
     for m in 0..n.groups.len() {
         if m < active {
-            v.push(Op::Build(m, false));
-            v.push(Op::Build(m, true));
+            for k in kinds {
+                if *k == Kind::Remove(m) {
+                    continue;
+                }
+                if let Kind::Remove(j) = k {
+                    // only members that are still in the group as the committer sees it (the model has no membership table)
+                    let lj = n.groups[*j].current_member_index();
+                    let jid = &n.groups[*j].current_member_signing_identity().map(|s| s.signature_key.clone()).ok();
+                    let still = n.groups[m].roster().members().iter().any(|x| x.index == lj && Some(&x.signing_identity.signature_key) == jid.as_ref());
+                    if !still {
+                        continue;
+                    }
+                }
+                v.push(Op::Build(m, false, *k));
+                v.push(Op::Build(m, true, *k));
+            }
             v.push(Op::Clear(m));
             v.push(Op::Apply(m));
             for (k, c) in n.commits.iter().enumerate() {
@@ -132,7 +196,8 @@ fn enabled<C: MlsConfig>(n: &Node<C>, active: usize) -> Vec<Op> {
         }
         for k in 0..n.commits.len() {
             v.push(Op::Deliver(m, k));
-            if n.commits[k].bad.is_some() && n.commits[k].author != m {
+            // (a receiver that the commit removes cannot check the confirmation tag: it has no key of the new epoch)
+            if n.commits[k].bad.is_some() && n.commits[k].author != m && n.commits[k].kind != Kind::Remove(m) {
                 v.push(Op::DeliverBad(m, k));
             }
         }
@@ -151,7 +216,8 @@ fn dfs<C: MlsConfig>(n: &Node<C>, depth: usize, trail: &mut Vec<(Op, String)>, c
     if depth == 0 {
         return;
     }
-    for op in enabled(n, cx.active) {
+    let kinds = cx.kinds.clone();
+    for op in enabled(n, cx.active, &kinds) {
         let mut child = n.clone();
         let before: Vec<Vec<(String, Vec<u8>)>> = child.groups.iter().map(|g| g.verif_components()).collect();
         let r = apply_op(&mut child, op);
@@ -205,6 +271,7 @@ fn setup<C: MlsConfig>(
     for i in 0..n {
         let s = Setup::new(&((b'A' + i as u8) as char).to_string());
         let h = handles(&s, log, "/tmp/vharness-scratch-c11");
+        h.psk.inner.lock().unwrap().insert(ext_psk_id(C11_PSK), psk_value(b"c11 psk value 0123456789abcdef!!"));
         let (id, sk) = make_identity(&s.name, s.suite);
         clients.push(mk(&s, &h, id, sk));
     }
@@ -240,7 +307,7 @@ pub fn run(o: &Opts) -> i32 {
     let groups = setup(&mk, members, &log);
     let base = groups[0].current_epoch();
     let root = Node { groups, commits: vec![] };
-    let mut cx = Ctx { qa: QA::create(&dir, "c11"), seqs: 0, ops: 0, fails: vec![], base_epoch: base, active, results: Default::default() };
+    let mut cx = Ctx { qa: QA::create(&dir, "c11"), seqs: 0, ops: 0, fails: vec![], base_epoch: base, active, results: Default::default(), kinds: vec![Kind::Empty] };
     let mut classes = vec![];
     let _ = obs(&root, &mut classes, base);
     let mut trail = vec![];
@@ -270,6 +337,25 @@ pub fn run(o: &Opts) -> i32 {
         let _ = obs(&root2, &mut classes2, base2);
         let mut trail2 = vec![];
         dfs(&root2, depth.saturating_sub(1).max(3), &mut trail2, &mut cx, &classes2);
+    }
+    // further configurations, one level less deep: commits without an update path (PSK only) next to empty ones — an own path-less
+    // commit can be processed by its author; commits that remove another racer or the passive member — the removed receiver stays
+    // where it is and loses its pending commit; re-init commits — whoever installs one is frozen
+    for kinds in [
+        vec![Kind::Empty, Kind::NoPath],
+        vec![Kind::Empty, Kind::Remove(1), Kind::Remove(0)],
+        vec![Kind::Empty, Kind::Remove(members - 1)],
+        vec![Kind::Empty, Kind::Reinit],
+    ] {
+        let groups = setup(&mk, members, &log);
+        let base3 = groups[0].current_epoch();
+        let root3 = Node { groups, commits: vec![] };
+        cx.base_epoch = base3;
+        cx.kinds = kinds;
+        let mut classes3 = vec![];
+        let _ = obs(&root3, &mut classes3, base3);
+        let mut trail3 = vec![];
+        dfs(&root3, depth.saturating_sub(1).max(3), &mut trail3, &mut cx, &classes3);
     }
     let rows = cx.qa.finish();
     println!("rows {rows}");
